@@ -165,6 +165,14 @@ impl EventGen for Container {
                 if bbox.is_some() {
                     context.set_prev_element(&new_el);
                 }
+                // The content of these elements is only rendered where it is referenced,
+                // so it does not contribute to the bounding box of the parent.
+                if matches!(
+                    self.0.name.as_str(),
+                    "clipPath" | "marker" | "mask" | "pattern"
+                ) {
+                    bbox = None;
+                }
                 Ok((events, bbox))
             }
         } else {
